@@ -160,6 +160,85 @@ static int cmd_verify(void) {
 	return rc;
 }
 
+/* ---- canonical field dumps through the getters (C10): one token without blanks; '~' = field absent; strings and octets in hex */
+static void d_raw(const char *s) { size_t n = strlen(s); if (outlen + n + 1 < sizeof(outbuf)) { memcpy(outbuf + outlen, s, n + 1); outlen += n; } }
+static void d_hex(const unsigned char *p, size_t n) {
+	size_t i; static const char d[] = "0123456789abcdef";
+	if (outlen + 2 * n + 4 >= sizeof(outbuf)) { d_raw("TOOLONG"); return; }
+	if (n == 0) outbuf[outlen++] = '-';
+	for (i = 0; i < n; i++) { outbuf[outlen++] = d[p[i] >> 4]; outbuf[outlen++] = d[p[i] & 15]; }
+	outbuf[outlen] = 0;
+}
+static void d_int(const char *k, const KSI_Integer *i) { if (i) kx_out("%s=%llu;", k, (unsigned long long)KSI_Integer_getUInt64(i)); else kx_out("%s=~;", k); }
+static void d_hash(const char *k, const KSI_DataHash *h) { const unsigned char *imp = NULL; size_t il = 0; kx_out("%s=", k); if (h && KSI_DataHash_getImprint(h, &imp, &il) == KSI_OK) d_hex(imp, il); else d_raw("~"); d_raw(";"); }
+static void d_oct(const char *k, const KSI_OctetString *o) { const unsigned char *p = NULL; size_t n = 0; kx_out("%s=", k); if (o && KSI_OctetString_extract(o, &p, &n) == KSI_OK) d_hex(p, n); else d_raw("~"); d_raw(";"); }
+static void d_utf(const char *k, const KSI_Utf8String *s) { kx_out("%s=", k); if (s) d_hex((const unsigned char *)KSI_Utf8String_cstr(s), KSI_Utf8String_size(s)); else d_raw("~"); d_raw(";"); }
+static void d_intlist(const char *k, KSI_LIST(KSI_Integer) *l) { size_t i; kx_out("%s=", k); if (!l) d_raw("~"); else for (i = 0; i < KSI_IntegerList_length(l); i++) { KSI_Integer *v = NULL; KSI_IntegerList_elementAt(l, i, &v); kx_out("%s%llu", i ? "," : "", (unsigned long long)KSI_Integer_getUInt64(v)); } d_raw(";"); }
+static void d_utflist(const char *k, KSI_LIST(KSI_Utf8String) *l) { size_t i; kx_out("%s=", k); if (!l) d_raw("~"); else for (i = 0; i < KSI_Utf8StringList_length(l); i++) { KSI_Utf8String *v = NULL; KSI_Utf8StringList_elementAt(l, i, &v); if (i) d_raw(","); if (v) d_hex((const unsigned char *)KSI_Utf8String_cstr(v), KSI_Utf8String_size(v)); } d_raw(";"); }
+static void d_pubdata(const char *k, KSI_PublicationData *pd) { KSI_Integer *t = NULL; KSI_DataHash *h = NULL; kx_out("%s{", k); if (!pd) { d_raw("~}"); return; } KSI_PublicationData_getTime(pd, &t); KSI_PublicationData_getImprint(pd, &h); d_int("t", t); d_hash("h", h); d_raw("}"); }
+static void d_pubrec(const char *k, KSI_PublicationRecord *pr) { KSI_PublicationData *pd = NULL; KSI_LIST(KSI_Utf8String) *a = NULL, *b = NULL; kx_out("%s{", k); if (!pr) { d_raw("~}"); return; }
+	KSI_PublicationRecord_getPublishedData(pr, &pd); KSI_PublicationRecord_getPublicationRefList(pr, &a); KSI_PublicationRecord_getRepositoryUriList(pr, &b); d_pubdata("pd", pd); d_utflist("ref", a); d_utflist("uri", b); d_raw("}"); }
+static void d_pkisd(const char *k, KSI_PKISignedData *sd) { KSI_Utf8String *ty = NULL, *uri = NULL; KSI_OctetString *v = NULL, *id = NULL; kx_out("%s{", k); if (!sd) { d_raw("~}"); return; }
+	KSI_PKISignedData_getSigType(sd, &ty); KSI_PKISignedData_getSignatureValue(sd, &v); KSI_PKISignedData_getCertId(sd, &id); KSI_PKISignedData_getCertRepositoryUri(sd, &uri); d_utf("ty", ty); d_oct("v", v); d_oct("id", id); d_utf("uri", uri); d_raw("}"); }
+static void d_calauth(const char *k, KSI_CalendarAuthRec *ca) { KSI_PublicationData *pd = NULL; KSI_PKISignedData *sd = NULL; kx_out("%s{", k); if (!ca) { d_raw("~}"); return; } KSI_CalendarAuthRec_getPublishedData(ca, &pd); KSI_CalendarAuthRec_getSignatureData(ca, &sd); d_pubdata("pd", pd); d_pkisd("sd", sd); d_raw("}"); }
+static void d_meta(KSI_MetaDataElement *m) { KSI_OctetString *pad = NULL; KSI_Utf8String *cl = NULL, *ma = NULL; KSI_Integer *sq = NULL, *rt = NULL; int r1, r2, r3, r4, r5;
+	r1 = KSI_MetaDataElement_getPadding(m, &pad); r2 = KSI_MetaDataElement_getClientId(m, &cl); r3 = KSI_MetaDataElement_getMachineId(m, &ma); r4 = KSI_MetaDataElement_getSequenceNr(m, &sq); r5 = KSI_MetaDataElement_getRequestTimeInMicros(m, &rt);
+	kx_out("m{r=%d.%d.%d.%d.%d;", r1, r2, r3, r4, r5); d_oct("pad", pad); d_utf("cl", cl); d_utf("ma", ma); d_int("sq", sq); d_int("rt", rt); d_raw("}"); /* the getters cache the values in the element: borrowed references */ }
+static void d_links(KSI_LIST(KSI_HashChainLink) *l) { size_t i; if (!l) { d_raw("l=~;"); return; }
+	for (i = 0; i < KSI_HashChainLinkList_length(l); i++) { KSI_HashChainLink *ln = NULL; int left = -1; KSI_Integer *c = NULL; KSI_DataHash *h = NULL; KSI_OctetString *lg = NULL; KSI_MetaDataElement *m = NULL;
+		KSI_HashChainLinkList_elementAt(l, i, &ln); KSI_HashChainLink_getIsLeft(ln, &left); KSI_HashChainLink_getLevelCorrection(ln, &c); KSI_HashChainLink_getImprint(ln, &h); KSI_HashChainLink_getLegacyId(ln, &lg); KSI_HashChainLink_getMetaData(ln, &m);
+		kx_out("l[%c;", left == 1 ? 'L' : left == 0 ? 'R' : '?'); d_int("c", c); d_hash("h", h); d_oct("g", lg); if (m) d_meta(m); else d_raw("m=~;"); d_raw("]"); } }
+static void d_aggrchain(KSI_AggregationHashChain *a) { KSI_Integer *t = NULL, *alg = NULL; KSI_LIST(KSI_Integer) *ix = NULL; KSI_OctetString *ind = NULL; KSI_DataHash *ih = NULL; KSI_LIST(KSI_HashChainLink) *l = NULL;
+	KSI_AggregationHashChain_getAggregationTime(a, &t); KSI_AggregationHashChain_getChainIndex(a, &ix); KSI_AggregationHashChain_getInputData(a, &ind); KSI_AggregationHashChain_getInputHash(a, &ih); KSI_AggregationHashChain_getAggrHashId(a, &alg); KSI_AggregationHashChain_getChain(a, &l);
+	d_raw("ac{"); d_int("t", t); d_intlist("ix", ix); d_oct("ind", ind); d_hash("ih", ih); d_int("alg", alg); d_links(l); d_raw("}"); }
+static void d_aggrchains(KSI_LIST(KSI_AggregationHashChain) *l) { size_t i; if (!l) { d_raw("ac=~;"); return; } for (i = 0; i < KSI_AggregationHashChainList_length(l); i++) { KSI_AggregationHashChain *a = NULL; KSI_AggregationHashChainList_elementAt(l, i, &a); d_aggrchain(a); } }
+static void d_calchain(const char *k, KSI_CalendarHashChain *c) { KSI_Integer *p = NULL, *a = NULL; KSI_DataHash *ih = NULL; KSI_LIST(KSI_HashChainLink) *l = NULL; kx_out("%s{", k); if (!c) { d_raw("~}"); return; }
+	KSI_CalendarHashChain_getPublicationTime(c, &p); KSI_CalendarHashChain_getAggregationTime(c, &a); KSI_CalendarHashChain_getInputHash(c, &ih); KSI_CalendarHashChain_getHashChain(c, &l); d_int("p", p); d_int("a", a); d_hash("ih", ih); d_links(l); d_raw("}"); }
+static void d_rfc(KSI_RFC3161 *r) { KSI_Integer *t = NULL, *a1 = NULL, *a2 = NULL; KSI_LIST(KSI_Integer) *ix = NULL; KSI_DataHash *ih = NULL; KSI_OctetString *p1 = NULL, *s1 = NULL, *p2 = NULL, *s2 = NULL; d_raw("rfc{"); if (!r) { d_raw("~}"); return; }
+	KSI_RFC3161_getAggregationTime(r, &t); KSI_RFC3161_getChainIndex(r, &ix); KSI_RFC3161_getInputHash(r, &ih); KSI_RFC3161_getTstInfoPrefix(r, &p1); KSI_RFC3161_getTstInfoSuffix(r, &s1); KSI_RFC3161_getTstInfoAlgo(r, &a1);
+	KSI_RFC3161_getSigAttrPrefix(r, &p2); KSI_RFC3161_getSigAttrSuffix(r, &s2); KSI_RFC3161_getSigAttrAlgo(r, &a2);
+	d_int("t", t); d_intlist("ix", ix); d_hash("ih", ih); d_oct("tp", p1); d_oct("ts", s1); d_int("ta", a1); d_oct("sp", p2); d_oct("ss", s2); d_int("sa", a2); d_raw("}"); }
+static void dump_sig(KSI_Signature *s) { kx_out(" dump=S{"); if (!s) { d_raw("~}"); return; } d_aggrchains(s->aggregationChainList); d_calchain("cc", s->calendarChain); d_pubrec("pr", s->publication); d_calauth("ca", s->calendarAuthRec); d_rfc(s->rfc3161); kx_out("aar=%d;}", s->aggregationAuthRec != NULL); }
+static void d_header(KSI_Header *h) { KSI_Utf8String *lg = NULL; KSI_Integer *a = NULL, *b = NULL; d_raw("hd{"); if (!h) { d_raw("~}"); return; } KSI_Header_getLoginId(h, &lg); KSI_Header_getInstanceId(h, &a); KSI_Header_getMessageId(h, &b); d_utf("lg", lg); d_int("in", a); d_int("ms", b); d_raw("}"); }
+static void d_config(const char *k, KSI_Config *c) { KSI_Integer *a = NULL, *b = NULL, *p = NULL, *m = NULL, *f = NULL, *l = NULL; KSI_LIST(KSI_Utf8String) *u = NULL; kx_out("%s{", k); if (!c) { d_raw("~}"); return; }
+	KSI_Config_getMaxLevel(c, &a); KSI_Config_getAggrAlgo(c, &b); KSI_Config_getAggrPeriod(c, &p); KSI_Config_getMaxRequests(c, &m); KSI_Config_getParentUri(c, &u); KSI_Config_getCalendarFirstTime(c, &f); KSI_Config_getCalendarLastTime(c, &l);
+	d_int("ml", a); d_int("al", b); d_int("pe", p); d_int("mr", m); d_utflist("pu", u); d_int("cf", f); d_int("cl", l); d_raw("}"); }
+static void d_ack(const char *k, KSI_RequestAck *a) { KSI_Integer *v[6] = {NULL, NULL, NULL, NULL, NULL, NULL}; kx_out("%s{", k); if (!a) { d_raw("~}"); return; }
+	KSI_RequestAck_getRequestTime(a, &v[0]); KSI_RequestAck_getReceiptTime(a, &v[1]); KSI_RequestAck_getAcknowledgeTime(a, &v[2]); KSI_RequestAck_getAggregationDelay(a, &v[3]); KSI_RequestAck_getAggregationPeriod(a, &v[4]); KSI_RequestAck_getAggregationDrift(a, &v[5]);
+	d_int("rq", v[0]); d_int("rc", v[1]); d_int("ak", v[2]); d_int("dl", v[3]); d_int("pe", v[4]); d_int("dr", v[5]); d_raw("}"); }
+static void d_error(KSI_ErrorPdu *e) { KSI_Integer *st = NULL; KSI_Utf8String *m = NULL; d_raw("er{"); if (!e) { d_raw("~}"); return; } KSI_ErrorPdu_getStatus(e, &st); KSI_ErrorPdu_getErrorMessage(e, &m); d_int("st", st); d_utf("msg", m); d_raw("}"); }
+static void dump_aggrpdu(KSI_AggregationPdu *p) { KSI_Header *h = NULL; KSI_AggregationReq *rq = NULL; KSI_AggregationResp *rs = NULL; KSI_ErrorPdu *er = NULL; KSI_Config *c1 = NULL, *c2 = NULL; KSI_RequestAck *a1 = NULL, *a2 = NULL; KSI_DataHash *mac = NULL;
+	KSI_AggregationPdu_getHeader(p, &h); KSI_AggregationPdu_getRequest(p, &rq); KSI_AggregationPdu_getResponse(p, &rs); KSI_AggregationPdu_getError(p, &er); KSI_AggregationPdu_getConfRequest(p, &c1); KSI_AggregationPdu_getConfResponse(p, &c2);
+	KSI_AggregationPdu_getAckRequest(p, &a1); KSI_AggregationPdu_getAckResponse(p, &a2); KSI_AggregationPdu_getHmac(p, &mac);
+	kx_out(" dump=A{"); d_header(h);
+	d_raw("rq{"); if (!rq) d_raw("~}"); else { KSI_Integer *id = NULL, *lv = NULL; KSI_DataHash *hs = NULL; KSI_Config *c = NULL; KSI_AggregationReq_getRequestId(rq, &id); KSI_AggregationReq_getRequestHash(rq, &hs); KSI_AggregationReq_getRequestLevel(rq, &lv); KSI_AggregationReq_getConfig(rq, &c);
+		d_int("id", id); d_hash("h", hs); d_int("lv", lv); d_config("cf", c); d_raw("}"); }
+	d_raw("rs{"); if (!rs) d_raw("~}"); else { KSI_Integer *id = NULL, *st = NULL; KSI_Utf8String *m = NULL; KSI_Config *c = NULL; KSI_RequestAck *ak = NULL; KSI_CalendarHashChain *cc = NULL; KSI_LIST(KSI_AggregationHashChain) *ac = NULL; KSI_CalendarAuthRec *ca = NULL; KSI_AggregationAuthRec *aa = NULL;
+		KSI_AggregationResp_getRequestId(rs, &id); KSI_AggregationResp_getStatus(rs, &st); KSI_AggregationResp_getErrorMsg(rs, &m); KSI_AggregationResp_getConfig(rs, &c); KSI_AggregationResp_getRequestAck(rs, &ak); KSI_AggregationResp_getCalendarChain(rs, &cc);
+		KSI_AggregationResp_getAggregationChainList(rs, &ac); KSI_AggregationResp_getCalendarAuthRec(rs, &ca); KSI_AggregationResp_getAggregationAuthRec(rs, &aa);
+		d_int("id", id); d_int("st", st); d_utf("msg", m); d_config("cf", c); d_ack("ak", ak); kx_out("nac=%zu;", ac ? KSI_AggregationHashChainList_length(ac) : (size_t)0); d_aggrchains(ac); d_calchain("cc", cc); d_calauth("ca", ca); kx_out("aar=%d;}", aa != NULL); }
+	d_error(er); d_config("cq", c1); d_config("cr", c2); d_ack("aq", a1); d_ack("ar", a2); d_hash("mac", mac); d_raw("}"); }
+static void dump_extpdu(KSI_ExtendPdu *p) { KSI_Header *h = NULL; KSI_ExtendReq *rq = NULL; KSI_ExtendResp *rs = NULL; KSI_ErrorPdu *er = NULL; KSI_Config *c1 = NULL, *c2 = NULL; KSI_DataHash *mac = NULL;
+	KSI_ExtendPdu_getHeader(p, &h); KSI_ExtendPdu_getRequest(p, &rq); KSI_ExtendPdu_getResponse(p, &rs); KSI_ExtendPdu_getError(p, &er); KSI_ExtendPdu_getConfRequest(p, &c1); KSI_ExtendPdu_getConfResponse(p, &c2); KSI_ExtendPdu_getHmac(p, &mac);
+	kx_out(" dump=E{"); d_header(h);
+	d_raw("rq{"); if (!rq) d_raw("~}"); else { KSI_Integer *id = NULL, *a = NULL, *b = NULL; KSI_ExtendReq_getRequestId(rq, &id); KSI_ExtendReq_getAggregationTime(rq, &a); KSI_ExtendReq_getPublicationTime(rq, &b); d_int("id", id); d_int("at", a); d_int("pt", b); d_raw("}"); }
+	d_raw("rs{"); if (!rs) d_raw("~}"); else { KSI_Integer *id = NULL, *st = NULL, *lt = NULL; KSI_Utf8String *m = NULL; KSI_CalendarHashChain *cc = NULL; KSI_ExtendResp_getRequestId(rs, &id); KSI_ExtendResp_getStatus(rs, &st); KSI_ExtendResp_getErrorMsg(rs, &m); KSI_ExtendResp_getLastTime(rs, &lt); KSI_ExtendResp_getCalendarHashChain(rs, &cc);
+		d_int("id", id); d_int("st", st); d_utf("msg", m); d_int("lt", lt); d_calchain("cc", cc); d_raw("}"); }
+	d_error(er); d_config("cq", c1); d_config("cr", c2); d_hash("mac", mac); d_raw("}"); }
+static void dump_pubfile(KSI_PublicationsFile *p) { KSI_PublicationsHeader *h = NULL; KSI_LIST(KSI_CertificateRecord) *cl = NULL; KSI_LIST(KSI_PublicationRecord) *pl = NULL; KSI_PKISignature *sg = NULL; size_t sl = 0, i;
+	kx_out(" dump=P{"); if (!p) { d_raw("~}"); return; }
+	KSI_PublicationsFile_getHeader(p, &h); KSI_PublicationsFile_getCertificates(p, &cl); KSI_PublicationsFile_getPublications(p, &pl); KSI_PublicationsFile_getSignature(p, &sg); KSI_PublicationsFile_getSignedDataLength(p, &sl);
+	d_raw("hd{"); if (!h) d_raw("~}"); else { KSI_Integer *v = NULL, *t = NULL; KSI_Utf8String *u = NULL; KSI_PublicationsHeader_getVersion(h, &v); KSI_PublicationsHeader_getTimeCreated(h, &t); KSI_PublicationsHeader_getRepositoryUri(h, &u); d_int("v", v); d_int("t", t); d_utf("u", u); d_raw("}"); }
+	for (i = 0; cl && i < KSI_CertificateRecordList_length(cl); i++) { KSI_CertificateRecord *cr = NULL; KSI_OctetString *id = NULL; KSI_PKICertificate *crt = NULL; unsigned char *der = NULL; size_t dl = 0; KSI_CertificateRecordList_elementAt(cl, i, &cr);
+		KSI_CertificateRecord_getCertId(cr, &id); KSI_CertificateRecord_getCert(cr, &crt); d_raw("cr{"); d_oct("id", id); if (crt && KSI_PKICertificate_serialize(crt, &der, &dl) == KSI_OK) { kx_out("der=%zu.%lu;", dl, KSI_crc32(der, dl, 0)); KSI_free(der); } else d_raw("der=~;"); d_raw("}"); }
+	for (i = 0; pl && i < KSI_PublicationRecordList_length(pl); i++) { KSI_PublicationRecord *pr = NULL; KSI_PublicationRecordList_elementAt(pl, i, &pr); d_pubrec("pr", pr); }
+	kx_out("sig=%d;signed=%zu;}", sg != NULL, sl); }
+static void verify_internal_brief(KSI_CTX *c, KSI_Signature *s) { KSI_VerificationContext vc; KSI_PolicyVerificationResult *res = NULL; int rc = KSI_VerificationContext_init(&vc, c);
+	if (rc != KSI_OK) { kx_out(" vrc=%d", rc); return; }
+	vc.signature = s; rc = KSI_SignatureVerifier_verify(KSI_VERIFICATION_POLICY_INTERNAL, &vc, &res);
+	kx_out(" vrc=%d", rc); if (res) kx_out(" vres=%d verr=%s", res->finalResult.resultCode, KSI_VerificationErrorCode_toString(res->finalResult.errorCode));
+	KSI_PolicyVerificationResult_free(res); vc.signature = NULL; KSI_VerificationContext_clean(&vc); }
+
 static int dispatch(void) {
 	const char *c0 = tok[0];
 	if (!strcmp(c0, "ctx")) { int i = atoi(tok[1]); int rc = KSI_CTX_new(&ctxs[i]); if (rc == KSI_OK) kx_net_ctx_init(ctxs[i]); return rc; }
@@ -236,6 +315,43 @@ static int dispatch(void) {
 		else if (!strcmp(tok[1], "forget")) { memset(fp_live, 0, sizeof fp_live); fp_nlive = 0; }
 		kx_out(" count=%lu live=%lu failed=%lu", fp_count, fp_nlive, fp_failed); return 0; }
 #endif
+	/* ---- C10 observation commands */
+	if (!strcmp(c0, "sigdump")) { dump_sig(sigs[atoi(tok[1])]); return 0; }
+	if (!strcmp(c0, "sigx")) {
+		/* sigx <c> <s> <hex> [v=1]: parseWithPolicy(EMPTY); when accepted: field dump, re-serialisation compared with the input, optionally the internal verdict */
+		size_t n; unsigned char *b = kx_hexarg(tok[3], &n); int rc; KSI_Signature *s = NULL; int si = atoi(tok[2]); KSI_CTX *c = ctxs[atoi(tok[1])];
+		rc = KSI_Signature_parseWithPolicy(c, b, n, KSI_VERIFICATION_POLICY_EMPTY, NULL, &s);
+		if (rc != KSI_OK && s != NULL) kx_out(" objonerr=1");
+		if (rc == KSI_OK && s == NULL) kx_out(" nullonok=1");
+		KSI_Signature_free(sigs[si]); sigs[si] = s;
+		if (rc == KSI_OK && s != NULL) {
+			unsigned char *raw = NULL; size_t rl = 0; int r2;
+			dump_sig(s);
+			r2 = KSI_Signature_serialize(s, &raw, &rl);
+			if (r2 != KSI_OK) kx_out(" ser=ERR%d", r2); else if (rl == n && !memcmp(raw, b, n)) kx_out(" ser=same"); else { kx_out(" ser=diff"); kx_outhex("serhex", raw, rl); }
+			KSI_free(raw);
+			if (kvl("v", 0)) verify_internal_brief(c, s);
+		}
+		vh_exact_free(b, n);
+		return rc;
+	}
+	if (!strcmp(c0, "pduparse")) {
+		/* pduparse <c> aggr|ext <hex>: KSI_AggregationPdu_parse / KSI_ExtendPdu_parse under the context's PDU version option, field dump when accepted */
+		size_t n; unsigned char *b = kx_hexarg(tok[3], &n); int rc; KSI_CTX *c = ctxs[atoi(tok[1])];
+		if (!strcmp(tok[2], "aggr")) { KSI_AggregationPdu *p = NULL; rc = KSI_AggregationPdu_parse(c, b, n, &p); if (rc != KSI_OK && p != NULL) kx_out(" objonerr=1"); if (rc == KSI_OK && p == NULL) kx_out(" nullonok=1");
+			if (rc == KSI_OK && p) dump_aggrpdu(p); KSI_AggregationPdu_free(p); }
+		else if (!strcmp(tok[2], "ext")) { KSI_ExtendPdu *p = NULL; rc = KSI_ExtendPdu_parse(c, b, n, &p); if (rc != KSI_OK && p != NULL) kx_out(" objonerr=1"); if (rc == KSI_OK && p == NULL) kx_out(" nullonok=1");
+			if (rc == KSI_OK && p) dump_extpdu(p); KSI_ExtendPdu_free(p); }
+		else rc = -1;
+		vh_exact_free(b, n);
+		return rc;
+	}
+	if (!strcmp(c0, "pubfiledump")) { dump_pubfile(pubfiles[atoi(tok[1])]); return 0; }
+	if (!strcmp(c0, "pubx")) { /* pubx <c> <hex>: KSI_PublicationsFile_parse + field dump, nothing kept */
+		size_t n; unsigned char *b = kx_hexarg(tok[2], &n); KSI_PublicationsFile *p = NULL; int rc = KSI_PublicationsFile_parse(ctxs[atoi(tok[1])], b, n, &p); vh_exact_free(b, n);
+		if (rc != KSI_OK && p != NULL) kx_out(" objonerr=1");
+		if (rc == KSI_OK && p) dump_pubfile(p);
+		KSI_PublicationsFile_free(p); return rc; }
 	if (!strcmp(c0, "ping")) { kx_out(" pong=1"); return 0; }
 	{ int handled = 0; int rc = kx_net_dispatch(tok, ntok, &handled); if (handled) return rc; }
 	kx_out(" unknown=%s", c0);
